@@ -128,7 +128,18 @@ func (p *c28Pool) exec(cs c28Case) c28Reply {
 	}
 	pr := p.get()
 	var hung atomic.Bool
-	timer := time.AfterFunc(90*time.Second, func() {
+	// a run is cancelled after WallMS; a worker that has not answered long
+	// after that is stuck in a call that ignores the context
+	watchdog := 90 * time.Second
+	if cs.WallMS > 0 {
+		watchdog = 10*time.Second + 3*time.Duration(cs.WallMS)*time.Millisecond
+	}
+	if s := os.Getenv("VERIF_C28_WATCHDOG_S"); s != "" {
+		var n int
+		fmt.Sscan(s, &n)
+		watchdog = time.Duration(n) * time.Second
+	}
+	timer := time.AfterFunc(watchdog, func() {
 		hung.Store(true)
 		pr.cmd.Process.Kill()
 	})
